@@ -2,7 +2,7 @@
    consecutive (positive) split times; this per-index alignment is what the rows of a Concurrence need. *)
 From Coq Require Import ZArith List Bool Lia ZifyBool Arith Permutation.
 From MV Require Import Base.Res Model.EventTree Model.TreeOps Proofs.TreeLemmas Proofs.CutOut
-  Proofs.SplitBase Proofs.SplitSingle Proofs.SplitSort Proofs.SplitLoop.
+  Proofs.SplitBase Proofs.SplitSingle Proofs.SplitSort Proofs.SplitLoop Proofs.SplitErrors.
 Import ListNotations.
 Open Scope Z_scope.
 
@@ -106,3 +106,761 @@ Proof.
            rewrite !at_outside; auto; lia.
       * destruct (0 <=? x - Z.max 0 (Z.min b (dur e) - lo)) eqn:E2; [lia|reflexivity].
 Qed.
+
+(* ------------------------------------------------------------ times: a strictly ascending list of positive times, possibly preceded by 0 *)
+Lemma sortZ_ssorted_id l : ssorted l -> sortZ l = l.
+Proof.
+  induction l as [|x l IH]; [reflexivity|]. intros [H1 H2]. simpl. rewrite IH by assumption.
+  apply insert_sorted_front. assumption.
+Qed.
+
+Definition times (z : bool) (bs : list Z) : list Z := if z then 0 :: bs else bs.
+Definition pos_sorted (bs : list Z) : Prop := ssorted bs /\ forall b, In b bs -> 0 < b.
+
+Lemma pos_sorted_cons0 bs : pos_sorted bs -> ssorted (0 :: bs).
+Proof. intros [H1 H2]. split; assumption. Qed.
+Lemma times_ssorted z bs : pos_sorted bs -> ssorted (times z bs).
+Proof. intros H. destruct z; [apply pos_sorted_cons0; assumption|apply H]. Qed.
+Lemma times_sort z bs : pos_sorted bs -> sortZ (times z bs) = times z bs.
+Proof. intros H. apply sortZ_ssorted_id, times_ssorted, H. Qed.
+Lemma times_nonneg z bs t : pos_sorted bs -> In t (times z bs) -> 0 <= t.
+Proof. intros [_ H] Hin. destruct z; simpl in Hin; [destruct Hin as [<-|Hin]; [lia|]|]; specialize (H t Hin); lia. Qed.
+Lemma times_sl1 z bs : pos_sorted bs -> (if memZ 0 (times z bs) then times z bs else 0 :: times z bs) = 0 :: bs.
+Proof.
+  intros [_ H]. destruct z; unfold times.
+  - cbn [memZ]. replace (0 =? 0) with true by reflexivity. reflexivity.
+  - destruct (memZ 0 bs) eqn:E; [|reflexivity]. apply memZ_In in E. specialize (H 0 E). lia.
+Qed.
+Lemma times_hd_nonneg z bs : pos_sorted bs -> 0 <= hd 0 (times z bs).
+Proof.
+  intros H. destruct (times z bs) as [|a r] eqn:E; [simpl; lia|]. simpl. apply (times_nonneg z bs); auto. rewrite E. left. reflexivity.
+Qed.
+
+(* every strictly ascending list of non-negative times has this form *)
+Lemma times_decompose sl : ssorted sl -> (forall t, In t sl -> 0 <= t) ->
+  exists z bs, sl = times z bs /\ pos_sorted bs /\ (forall t, In t sl -> 0 < t -> In t bs) /\ (forall t, In t bs -> In t sl).
+Proof.
+  intros Hs Hnn. destruct sl as [|a r].
+  - exists false, []. repeat split; auto; intros ? [].
+  - destruct (a =? 0) eqn:E.
+    + assert (a = 0) by lia. subst a. exists true, r. destruct Hs as [H1 H2].
+      split; [reflexivity|]. split; [split; assumption|]. split.
+      * intros t [<-|Hin] Ht; [lia|assumption].
+      * intros t Hin. right. assumption.
+    + exists false, (a :: r). split; [reflexivity|]. split; [|split; auto].
+      split; [assumption|]. intros b Hb. destruct Hs as [H1 _]. specialize (Hnn a (or_introl eq_refl)).
+      destruct Hb as [<-|Hb]; [lia|]. specialize (H1 b Hb). lia.
+Qed.
+
+(* ------------------------------------------------------------ Leaf *)
+Lemma leaf_is_win d l lo hi : 0 <= lo -> lo < d -> hi_ok lo hi ->
+  is_win (Leaf d l) lo hi (Leaf (match hi with Some h => Z.min h d | None => d end - lo) l).
+Proof.
+  intros Hlo Hd Hhi. unfold is_win, win_dur, win_at, hi_ok in *. destruct hi as [h|]; simpl.
+  - repeat split; try lia. intros x.
+    repeat match goal with |- context [if ?c then _ else _] => destruct c eqn:? end; try reflexivity; lia.
+  - repeat split; try lia. intros x.
+    repeat match goal with |- context [if ?c then _ else _] => destruct c eqn:? end; try reflexivity; lia.
+Qed.
+
+Lemma pairs_cons2 {A} (a b : A) r : pairs (a :: b :: r) = (a, b) :: pairs (b :: r).
+Proof. reflexivity. Qed.
+
+Lemma leaf_go_inside d l ign : forall bs lo, 0 <= lo -> lo < d -> ssorted (lo :: bs) -> (forall b, In b bs -> b < d) ->
+  exists ps, leaf_go d l ign (pairs ((lo :: bs) ++ [d])) = Ok ps /\ aligned (Leaf d l) lo bs ps.
+Proof.
+  induction bs as [|b bs IH]; intros lo Hlo Hd Hs Hb.
+  - cbn [app]. rewrite pairs_cons2. cbn [pairs]. rewrite leaf_go_cons, leaf_go_nil, leaf_cut_out_ok by lia.
+    cbn [bind]. eexists; split; [reflexivity|]. cbn [aligned]. split; [reflexivity|].
+    rewrite Z.min_id. apply (leaf_is_win d l lo None); simpl; auto.
+  - destruct Hs as [Hs1 Hs2]. assert (lo < b) by (apply Hs1; left; reflexivity).
+    assert (b < d) by (apply Hb; left; reflexivity).
+    cbn [app]. rewrite pairs_cons2, leaf_go_cons, leaf_cut_out_ok by lia.
+    destruct (IH b ltac:(lia) ltac:(lia) Hs2 (fun x Hx => Hb x (or_intror Hx))) as (ps & E & Ha).
+    change (b :: bs ++ [d]) with ((b :: bs) ++ [d]). rewrite E. cbn [bind].
+    eexists; split; [reflexivity|]. cbn [aligned]. split; [|exact Ha].
+    apply (leaf_is_win d l lo (Some b)); simpl; auto.
+Qed.
+
+Lemma leaf_go_beyond d l : forall bs lo, 0 <= lo -> d <= lo -> ssorted (lo :: bs) ->
+  leaf_go d l true (pairs (lo :: bs)) = Ok [].
+Proof.
+  induction bs as [|b bs IH]; intros lo Hlo Hd Hs; [reflexivity|].
+  destruct Hs as [Hs1 Hs2]. assert (lo < b) by (apply Hs1; left; reflexivity).
+  rewrite pairs_cons2, leaf_go_cons, leaf_cut_out_beyond by lia. apply IH; auto; lia.
+Qed.
+
+Lemma last_cons2 (a b : Z) r : last (a :: b :: r) 0 = last (b :: r) 0.
+Proof. reflexivity. Qed.
+
+Lemma leaf_go_outside d l ign : forall bs lo, 0 <= lo -> ssorted (lo :: bs) -> d <= last (lo :: bs) 0 ->
+  (ign = true \/ forall b, In b (lo :: bs) -> b <= d) ->
+  exists ps, leaf_go d l ign (pairs (lo :: bs)) = Ok ps /\ aligned (Leaf d l) lo bs ps.
+Proof.
+  induction bs as [|b bs IH]; intros lo Hlo Hs Hl Hign.
+  - exists []. split; [reflexivity|]. simpl in *. lia.
+  - destruct Hs as [Hs1 Hs2]. assert (lo < b) by (apply Hs1; left; reflexivity).
+    rewrite last_cons2 in Hl. rewrite pairs_cons2, leaf_go_cons.
+    destruct (lo <? d) eqn:E.
+    + rewrite leaf_cut_out_ok by lia.
+      destruct (IH b ltac:(lia) Hs2 Hl) as (ps & Eps & Ha).
+      { destruct Hign as [->|Hle]; [left; reflexivity|right]. intros x Hx. apply Hle. right. assumption. }
+      rewrite Eps. cbn [bind]. eexists; split; [reflexivity|]. cbn [aligned]. split; [|exact Ha].
+      apply (leaf_is_win d l lo (Some b)); simpl; auto; lia.
+    + rewrite leaf_cut_out_beyond by lia.
+      assert (ign = true) as ->.
+      { destruct Hign as [->|Hle]; [reflexivity|]. specialize (Hle b (or_intror (or_introl eq_refl))). lia. }
+      rewrite leaf_go_beyond by (auto; lia). exists []. split; [reflexivity|]. simpl. lia.
+Qed.
+
+Lemma last_nonneg (l : list Z) : (forall x, In x l -> 0 <= x) -> 0 <= last l 0.
+Proof. intros H. destruct l as [|a r]; [simpl; lia|]. apply H. apply last_In. congruence. Qed.
+
+Lemma leaf_multi d l z bs ign : 0 <= d -> pos_sorted bs -> times z bs <> [] ->
+  (ign = true \/ forall b, In b bs -> b <= d) ->
+  exists ps, leaf_split d l (times z bs) ign = Ok ps /\ aligned (Leaf d l) 0 bs ps.
+Proof.
+  intros Hd Hp Hne Hign. rewrite leaf_split_unfold by assumption. cbv zeta.
+  rewrite times_sort by assumption. rewrite check_time_ok by (apply times_hd_nonneg; assumption). cbn [bind].
+  rewrite times_sl1 by assumption. pose proof (pos_sorted_cons0 bs Hp) as Hs0.
+  assert (Hnn : forall x, In x (0 :: bs) -> 0 <= x) by (intros x [<-|Hx]; [lia|]; destruct Hp as [_ Hp]; specialize (Hp x Hx); lia).
+  pose proof (last_nonneg _ Hnn) as Hl0. unfold lastZ.
+  destruct (last (0 :: bs) 0 <? d) eqn:E.
+  - cbn [bind]. apply leaf_go_inside; auto; try lia.
+    intros b Hb. pose proof (sorted_le_last (0 :: bs) b (ssorted_sorted _ Hs0) (or_intror Hb)). lia.
+  - assert ((d <? last (0 :: bs) 0) && negb ign = false) as ->.
+    { destruct Hign as [->|Hle]; [apply andb_false_r|]. apply andb_false_intro1.
+      assert (In (last (0 :: bs) 0) (0 :: bs)) as [<-|Hin] by (apply last_In; congruence); [lia|].
+      specialize (Hle _ Hin). lia. }
+    cbn [bind]. apply leaf_go_outside; auto; try lia.
+    destruct Hign as [->|Hle]; [left; reflexivity|right]. intros b [<-|Hb]; [lia|auto].
+Qed.
+
+(* ------------------------------------------------------------ Concurrence *)
+Definition multi_ok (n : nat) (rec : ev -> list Z -> bool -> res (list ev)) : Prop :=
+  forall e z bs ign, (height e <= n)%nat -> wf e -> pos_sorted bs -> times z bs <> [] ->
+    (ign = true \/ forall b, In b bs -> b <= dur e) ->
+    exists ps, rec e (times z bs) ign = Ok ps /\ aligned e 0 bs ps.
+
+Definition opt_win (c : ev) (lo : Z) (hi : option Z) (o : option ev) : Prop :=
+  match o with Some p => is_win c lo hi p | None => dur c <= lo end.
+
+Lemma opt_win_sem c lo hi o : wf c -> opt_win c lo hi o ->
+  (forall x, at_opt o x = win_at c lo hi x) /\ dur_opt o = win_dur c lo hi /\
+  (forall p, o = Some p -> wf p) /\ (forall p, o = Some p -> (height p <= height c)%nat).
+Proof.
+  intros Wc H. destruct o as [p|]; simpl in H.
+  - destruct H as (W & Hh & S & D & A). repeat split; auto; intros q Hq; inversion Hq; subst; assumption.
+  - split; [intros x; simpl; symmetry; apply win_at_empty; assumption|].
+    split; [simpl; symmetry; apply win_dur_empty; assumption|]. split; intros q Hq; discriminate.
+Qed.
+
+Lemma row_win m cs pss s lo hi : wfs cs -> 0 <= lo -> hi_ok lo hi ->
+  Forall2 (fun c ps => opt_win c lo hi (nth_error ps s)) cs pss ->
+  is_win (Sim m cs) lo hi (Sim m (row pss s)).
+Proof.
+  intros Hwf Hlo Hhi HF.
+  assert (G : (forall x, at_sim x (row pss s) = if (0 <=? x) && hi_lt (lo + x) hi then at_sim (lo + x) cs else []) /\
+              dmax (row pss s) = Z.max 0 (match hi with Some h => Z.min h (dmax cs) | None => dmax cs end - lo) /\
+              wfs (row pss s) /\ (hmax (row pss s) <= hmax cs)%nat).
+  { induction HF as [|c ps cs pss Hc HF IH].
+    - rewrite row_nil. split; [intros x; destruct (_ && _); reflexivity|]. split; [|split; [exact I|simpl; lia]].
+      unfold hi_ok in Hhi. destruct hi; simpl; lia.
+    - destruct Hwf as [Wc Wcs]. destruct (IH Wcs) as (I1 & I2 & I3 & I4).
+      destruct (opt_win_sem c lo hi _ Wc Hc) as (O1 & O2 & O3 & O4).
+      rewrite row_cons, dmax_app, hmax_app, dmax_cons, hmax_cons, elem_dmax by assumption.
+      split; [|split; [|split]].
+      + intros x. rewrite at_sim_app, elem_at, O1, I1, at_sim_cons. unfold win_at.
+        destruct ((0 <=? x) && hi_lt (lo + x) hi); [|reflexivity]. destruct (at_ c (lo + x)); reflexivity.
+      + rewrite O2, I2. unfold win_dur. pose proof (dmax_nonneg cs). destruct hi; lia.
+      + apply wfs_app. split; [apply elem_wfs; assumption|assumption].
+      + pose proof (elem_hmax (nth_error ps s) (height c) O4). lia. }
+  destruct G as (G1 & G2 & G3 & G4). unfold is_win. rewrite wf_sim, !height_sim, !dur_sim.
+  split; [assumption|]. split; [lia|]. split; [reflexivity|]. split; [exact G2|].
+  intros x. unfold win_at. rewrite !at_sim_eq, G1. destruct ((0 <=? x) && hi_lt (lo + x) hi); reflexivity.
+Qed.
+
+Lemma skipn_nth_error {A} (ps : list A) : forall s,
+  skipn s ps = match nth_error ps s with Some p => p :: skipn (S s) ps | None => [] end.
+Proof.
+  induction ps as [|a ps IH]; intros s; [destruct s; reflexivity|].
+  destruct s as [|s]; [reflexivity|]. cbn [skipn nth_error]. rewrite IH. destruct (nth_error ps s); reflexivity.
+Qed.
+
+Lemma aligned_skipn_step c lo b bs ps s : wf c -> lo <= b -> aligned c lo (b :: bs) (skipn s ps) ->
+  opt_win c lo (Some b) (nth_error ps s) /\ aligned c b bs (skipn (S s) ps).
+Proof.
+  intros Wc Hb H. rewrite skipn_nth_error in H. destruct (nth_error ps s) as [p|] eqn:E.
+  - cbn [aligned] in H. exact H.
+  - cbn [aligned] in H. split; [exact H|]. rewrite skipn_all2; [simpl; lia|]. apply nth_error_None in E. lia.
+Qed.
+Lemma aligned_skipn_last c lo ps s : aligned c lo [] (skipn s ps) -> opt_win c lo None (nth_error ps s).
+Proof.
+  intros H. rewrite skipn_nth_error in H. destruct (nth_error ps s) as [p|] eqn:E; cbn [aligned] in H; [apply H|exact H].
+Qed.
+
+(* exactly one candidate part per window *)
+Fixpoint cand (e : ev) (lo : Z) (bs : list Z) (Ps : list ev) {struct Ps} : Prop :=
+  match Ps with
+  | [] => False
+  | P :: Ps' => match bs with
+                | [] => Ps' = [] /\ is_win e lo None P
+                | b :: bs' => is_win e lo (Some b) P /\ cand e b bs' Ps'
+                end
+  end.
+
+(* dropping the empty rows keeps the alignment: once a window is empty, all later ones are *)
+Lemma cand_filter m e : wf e -> forall Rs lo bs, ssorted (lo :: bs) ->
+  cand e lo bs (map (fun r => Sim m r) Rs) -> aligned e lo bs (map (fun r => Sim m r) (filter nonempty Rs)).
+Proof.
+  intros We. induction Rs as [|R Rs IH]; intros lo bs Hs H; [destruct H|].
+  cbn [map filter] in *. destruct bs as [|b bs']; cbn [cand] in H.
+  - destruct H as [Hnil Hw]. apply map_eq_nil in Hnil. subst Rs. cbn [filter].
+    destruct (nonempty R) eqn:E; cbn [map aligned]; [auto|].
+    destruct Hw as (_ & _ & _ & D & _). destruct (sim_empty_sem m R E) as [Z0 _]. rewrite Z0 in D.
+    apply (win_dur_zero e lo None); simpl; auto.
+  - destruct H as [Hw Hc]. destruct Hs as [Hs1 Hs2]. assert (Hb : lo < b) by (apply Hs1; left; reflexivity).
+    specialize (IH b bs' Hs2 Hc).
+    destruct (nonempty R) eqn:E; cbn [map aligned]; [auto|].
+    destruct Hw as (_ & _ & _ & D & _). destruct (sim_empty_sem m R E) as [Z0 _]. rewrite Z0 in D.
+    apply aligned_shift; auto; [|lia|apply ssorted_sorted; assumption].
+    apply (win_dur_zero e lo (Some b)); simpl; auto.
+Qed.
+
+Lemma Forall2_impl_wfs (P Q : ev -> list ev -> Prop) cs pss : wfs cs ->
+  (forall c ps, wf c -> P c ps -> Q c ps) -> Forall2 P cs pss -> Forall2 Q cs pss.
+Proof.
+  intros Hw H HF. induction HF as [|c ps cs pss Hc HF IH]; [constructor|]. destruct Hw as [Wc Wcs].
+  constructor; auto.
+Qed.
+
+Lemma sim_cand m cs pss : wfs cs -> forall bs lo s, 0 <= lo -> ssorted (lo :: bs) ->
+  Forall2 (fun c ps => aligned c lo bs (skipn s ps)) cs pss ->
+  cand (Sim m cs) lo bs (map (fun r => Sim m r) (map (row pss) (seq s (S (length bs))))).
+Proof.
+  intros Hwf. induction bs as [|b bs IH]; intros lo s Hlo Hs HF.
+  - cbn [length seq map cand]. split; [reflexivity|]. apply row_win; simpl; auto.
+    eapply Forall2_impl_wfs; [exact Hwf| |exact HF]. intros c ps _ H. apply aligned_skipn_last. exact H.
+  - destruct Hs as [Hs1 Hs2]. assert (Hb : lo < b) by (apply Hs1; left; reflexivity).
+    change (seq s (S (length (b :: bs)))) with (s :: seq (S s) (S (length bs))). cbn [map cand]. split.
+    + apply row_win; simpl; auto.
+      eapply Forall2_impl_wfs; [exact Hwf| |exact HF]. intros c ps Wc H.
+      apply (aligned_skipn_step c lo b bs ps s Wc ltac:(lia) H).
+    + apply IH; auto; [lia|].
+      eapply Forall2_impl_wfs; [exact Hwf| |exact HF]. intros c ps Wc H.
+      apply (aligned_skipn_step c lo b bs ps s Wc ltac:(lia) H).
+Qed.
+
+Lemma max_len_bound (P : ev -> list ev -> Prop) cs pss N : (forall c ps, P c ps -> (length ps <= N)%nat) ->
+  Forall2 P cs pss -> (max_len pss <= N)%nat.
+Proof. intros H HF. induction HF as [|c ps cs pss Hc HF IH]; [simpl; lia|]. rewrite max_len_cons. specialize (H _ _ Hc). lia. Qed.
+
+Lemma slices_of_ne rec cs sl : sl <> [] -> slices_of rec cs sl = mapM (fun c => rec c sl true) cs.
+Proof. destruct sl; [congruence|reflexivity]. Qed.
+
+Section SimMulti.
+  Variable rec : ev -> list Z -> bool -> res (list ev).
+  Variable n : nat.
+  Hypothesis Hrec : multi_ok n rec.
+
+  Lemma sim_multi m cs z bs ign : (hmax cs <= n)%nat -> wfs cs -> pos_sorted bs -> times z bs <> [] ->
+    (ign = true \/ forall b, In b bs -> b <= dmax cs) ->
+    exists ps, sim_split rec m cs (times z bs) ign = Ok ps /\ aligned (Sim m cs) 0 bs ps.
+  Proof.
+    intros Hh Hwf Hp Hne Hign. rewrite sim_split_unfold by assumption. cbv zeta.
+    rewrite times_sort by assumption. rewrite check_time_ok by (apply times_hd_nonneg; assumption). cbn [bind].
+    unfold lastZ. assert ((dmax cs <? last (times z bs) 0) && negb ign = false) as ->.
+    { destruct Hign as [->|Hle]; [apply andb_false_r|]. apply andb_false_intro1.
+      pose proof (last_In (times z bs) Hne) as Hin.
+      pose proof (dmax_nonneg cs).
+      destruct z; unfold times in *; [destruct Hin as [Hz|Hin]; [rewrite <- Hz; lia|]|]; specialize (Hle _ Hin); lia. }
+    rewrite slices_of_ne by assumption.
+    destruct (mapM_spec (fun c => rec c (times z bs) true) (fun c ps => aligned c 0 bs ps) cs) as (pss & E & HF).
+    { intros c Hc. apply Hrec; auto.
+      - pose proof (hmax_In cs c Hc). lia.
+      - eapply wfs_In; eauto. }
+    rewrite E. cbn [bind]. eexists; split; [reflexivity|].
+    rewrite (rows_eq pss (S (length bs))).
+    - apply cand_filter; [exact Hwf|apply pos_sorted_cons0; assumption|].
+      apply sim_cand; auto; [lia|apply pos_sorted_cons0; assumption].
+    - eapply max_len_bound; [|exact HF]. intros c ps H. exact (aligned_length c 0 bs ps H).
+  Qed.
+End SimMulti.
+
+(* ------------------------------------------------------------ Consecution: slices between recorded indices *)
+Lemma firstn_add {A} (c : list A) : forall i k, firstn (i + k) c = firstn i c ++ firstn k (skipn i c).
+Proof.
+  induction c as [|a c IH]; intros i k.
+  - rewrite !firstn_nil, skipn_nil, firstn_nil. reflexivity.
+  - destruct i as [|i]; [reflexivity|]. cbn [Nat.add firstn skipn app]. rewrite IH. reflexivity.
+Qed.
+Lemma lslice_split {A} (c : list A) i i' : (i <= i')%nat -> firstn i' c = firstn i c ++ lslice i i' c.
+Proof. intros H. unfold lslice. rewrite <- firstn_add. f_equal. lia. Qed.
+Lemma lslice_dsum c i i' : (i <= i')%nat -> dsum (lslice i i' c) = dsum (firstn i' c) - dsum (firstn i c).
+Proof. intros H. rewrite (lslice_split c i i' H), dsum_app. lia. Qed.
+Lemma wfs_lslice c i i' : wfs c -> wfs (lslice i i' c).
+Proof. intros H. unfold lslice. apply wfs_firstn, wfs_skipn, H. Qed.
+Lemma hmax_lslice c i i' : (hmax (lslice i i' c) <= hmax c)%nat.
+Proof. unfold lslice. pose proof (hmax_firstn (i' - i) (skipn i c)). pose proof (hmax_skipn i c). lia. Qed.
+Lemma dsum_firstn_mono c i i' : wfs c -> (i <= i')%nat -> dsum (firstn i c) <= dsum (firstn i' c).
+Proof. intros Hw H. pose proof (lslice_dsum c i i' H). pose proof (dsum_nonneg _ (wfs_lslice c i i' Hw)). lia. Qed.
+Lemma dsum_firstn_lt_idx c i i' : wfs c -> dsum (firstn i c) < dsum (firstn i' c) -> (i < i')%nat.
+Proof.
+  intros Hw H. destruct (Nat.lt_ge_cases i i') as [Hlt|Hge]; [assumption|].
+  pose proof (dsum_firstn_mono c i' i Hw Hge). lia.
+Qed.
+
+Lemma at_seq_lslice c i i' x : wfs c -> (i <= i')%nat ->
+  at_seq (lslice i i' c) x =
+  if (0 <=? x) && (dsum (firstn i c) + x <? dsum (firstn i' c)) then at_seq c (dsum (firstn i c) + x) else None.
+Proof.
+  intros Hw H. pose proof (lslice_dsum c i i' H) as Hd. unfold lslice in *.
+  rewrite at_seq_firstn by (apply wfs_skipn; assumption). rewrite Hd, at_seq_skipn by assumption.
+  repeat match goal with |- context [if ?c then _ else _] => destruct c eqn:? end; try reflexivity; lia.
+Qed.
+
+Lemma seq_slice_win m c i i' lo b : wfs c -> (i <= i')%nat -> dsum (firstn i c) = lo -> dsum (firstn i' c) = b ->
+  is_win (Seq m c) lo (Some b) (Seq m (lslice i i' c)).
+Proof.
+  intros Hw H Hlo Hb. unfold is_win. rewrite wf_seq, !height_seq, !dur_seq.
+  split; [apply wfs_lslice; assumption|]. split; [pose proof (hmax_lslice c i i'); lia|]. split; [reflexivity|].
+  pose proof (dsum_firstn_mono c i i' Hw H). pose proof (dsum_firstn_le i' c Hw).
+  split; [rewrite lslice_dsum by assumption; unfold win_dur; rewrite dur_seq; lia|].
+  intros x. rewrite at_seq_eq, at_seq_lslice by assumption. unfold win_at. cbn [hi_lt]. rewrite Hlo, Hb, at_seq_eq. reflexivity.
+Qed.
+
+Lemma seq_tail_win m c i lo hi : wfs c -> dsum (firstn i c) = lo ->
+  match hi with Some b => dsum c <= b | None => True end ->
+  is_win (Seq m c) lo hi (Seq m (skipn i c)).
+Proof.
+  intros Hw Hlo Hhi. unfold is_win. rewrite wf_seq, !height_seq, !dur_seq.
+  split; [apply wfs_skipn; assumption|]. split; [pose proof (hmax_skipn i c); lia|]. split; [reflexivity|].
+  pose proof (dsum_firstn_skipn i c). pose proof (dsum_nonneg _ (wfs_skipn i c Hw)).
+  split; [unfold win_dur; rewrite dur_seq; destruct hi; lia|].
+  intros x. rewrite at_seq_eq, at_seq_skipn by assumption. unfold win_at. rewrite Hlo, at_seq_eq.
+  destruct (0 <=? x) eqn:E; cbn [andb]; [|reflexivity].
+  destruct hi as [b|]; cbn [hi_lt]; [|reflexivity].
+  destruct (lo + x <? b) eqn:E2; [reflexivity|]. apply at_seq_outside; [assumption|lia].
+Qed.
+
+(* idx are the indices recorded for a prefix of the times sl; the remaining times lie at or beyond the end *)
+Fixpoint idx_rel (c : list ev) (durf : Z) (idx : list nat) (sl : list Z) {struct idx} : Prop :=
+  match idx with
+  | [] => forall t, In t sl -> durf <= t
+  | i :: idx' => match sl with
+                 | [] => False
+                 | t :: sl' => dsum (firstn i c) = t /\ (i < length c)%nat /\ idx_rel c durf idx' sl'
+                 end
+  end.
+
+Lemma idx_rel_range c durf idx bs : idx_rel c durf idx bs -> (forall b, In b bs -> 0 < b) ->
+  Forall (fun i => (0 < i < length c)%nat) idx.
+Proof.
+  revert bs. induction idx as [|i idx IH]; intros bs H Hp; [constructor|].
+  destruct bs as [|b bs]; cbn [idx_rel] in H; [destruct H|]. destruct H as (H1 & H2 & H3).
+  constructor; [|apply (IH bs); auto; intros; apply Hp; right; assumption].
+  split; [|assumption]. destruct i; [|lia]. simpl in H1. specialize (Hp b (or_introl eq_refl)). lia.
+Qed.
+
+Lemma seq_finish_shape m c pre idx : c <> [] -> (pre = [] \/ pre = [0%nat]) ->
+  Forall (fun i => (0 < i < length c)%nat) idx ->
+  seq_finish m c (pre ++ idx) = map (fun '(i0, i1) => Seq m (lslice i0 i1 c)) (pairs (0%nat :: idx ++ [length c])).
+Proof.
+  intros Hne Hpre HF. unfold seq_finish. rewrite Forall_forall in HF.
+  assert (Hlen : (0 < length c)%nat) by (destruct c; [congruence|simpl; lia]).
+  assert (H0 : memN 0%nat idx = false).
+  { destruct (memN 0%nat idx) eqn:E; [|reflexivity]. apply memN_In in E. specialize (HF _ E). lia. }
+  assert (E1 : (if memN 0%nat (pre ++ idx) then pre ++ idx else 0%nat :: pre ++ idx) = 0%nat :: idx).
+  { destruct Hpre as [->| ->]; cbn [app]; [rewrite H0; reflexivity|reflexivity]. }
+  rewrite E1.
+  assert (E2 : memN (length c) (0%nat :: idx) = false).
+  { destruct (memN (length c) (0%nat :: idx)) eqn:E; [|reflexivity]. apply memN_In in E.
+    destruct E as [E|E]; [lia|]. specialize (HF _ E). lia. }
+  rewrite E2. reflexivity.
+Qed.
+
+Lemma slices_aligned m c durf : wfs c -> dsum c = durf -> forall idx bs i lo,
+  dsum (firstn i c) = lo -> ssorted (lo :: bs) -> idx_rel c durf idx bs ->
+  aligned (Seq m c) lo bs (map (fun '(i0, i1) => Seq m (lslice i0 i1 c)) (pairs (i :: idx ++ [length c]))).
+Proof.
+  intros Hw Hd. induction idx as [|i' idx IH]; intros bs i lo Hlo Hs H.
+  - cbn [app]. rewrite pairs_cons2. cbn [pairs map]. rewrite lslice_to_end. cbn [idx_rel] in H.
+    destruct bs as [|b bs]; cbn [aligned].
+    + split; [reflexivity|]. apply seq_tail_win; auto.
+    + assert (durf <= b) by (apply H; left; reflexivity).
+      split; [apply seq_tail_win; auto; lia|]. rewrite dur_seq. lia.
+  - destruct bs as [|b bs]; cbn [idx_rel] in H; [destruct H|]. destruct H as (H1 & H2 & H3).
+    destruct Hs as [Hs1 Hs2]. assert (Hb : lo < b) by (apply Hs1; left; reflexivity).
+    assert (Hii : (i < i')%nat) by (apply (dsum_firstn_lt_idx c); [assumption|lia]).
+    cbn [app]. rewrite pairs_cons2. cbn [map aligned]. split.
+    + apply seq_slice_win; auto. lia.
+    + apply (IH bs i' b); auto.
+Qed.
+
+(* ------------------------------------------------------------ Consecution: the loop over ascending times *)
+Section SeqMulti.
+  Variable rec : ev -> list Z -> bool -> res (list ev).
+  Variable n : nat.
+  Hypothesis Hrec : rec_ok n rec.
+
+  Lemma idx_rel_beyond c durf idx r : wfs c -> dsum c = durf -> idx_rel c durf idx r ->
+    (forall t, In t r -> durf < t) -> idx = [].
+  Proof.
+    intros Hw Hd H Hr. destruct idx as [|i idx]; [reflexivity|]. destruct r as [|t r]; cbn [idx_rel] in H; [destruct H|].
+    destruct H as (H1 & _). specialize (Hr t (or_introl eq_refl)). pose proof (dsum_firstn_le i c Hw). lia.
+  Qed.
+
+  Lemma loop_sorted ign durf : forall sl c idx, good n durf c -> ssorted sl -> (forall t, In t sl -> 0 <= t) ->
+    (ign = true \/ forall t, In t sl -> t <= durf) ->
+    exists c' idx', seq_split_loop rec ign false durf sl c (starts c) idx = Ok (c', idx ++ idx') /\ good n durf c' /\
+       (forall x, at_seq c' x = at_seq c x) /\ (length c <= length c')%nat /\ (hmax c' <= hmax c)%nat /\
+       (forall k, (forall t, In t sl -> dsum (firstn k c) < t) -> firstn k c' = firstn k c) /\
+       idx_rel c' durf idx' sl.
+  Proof.
+    induction sl as [|t r IH]; intros c idx Hg Hs Hnn Hign.
+    - exists c, []. rewrite seq_loop_nil, app_nil_r. split; [reflexivity|]. split; [assumption|].
+      split; [reflexivity|]. split; [lia|]. split; [lia|]. split; [reflexivity|]. cbn [idx_rel]. intros t [].
+    - destruct Hs as [Hs1 Hs2].
+      assert (Ht : 0 <= t) by (apply Hnn; left; reflexivity).
+      assert (Hnn' : forall t', In t' r -> 0 <= t') by (intros; apply Hnn; right; assumption).
+      assert (Hign' : ign = true \/ forall t', In t' r -> t' <= durf).
+      { destruct Hign as [->|H]; [left; reflexivity|right; intros; apply H; right; assumption]. }
+      destruct (loop_step rec n Hrec ign durf t r c idx Hg Ht)
+        as [(i & Hn & E)|[(Hnin & Htd & E)|[(Hnin & Hlt & c1 & i & Hok & Hg1 & E)|(Hlt & E)]]].
+      + (* a boundary exists at t *)
+        destruct (IH c (idx ++ [i]) Hg Hs2 Hnn' Hign') as (c' & idx' & E' & Hg' & A' & L' & M' & P' & R').
+        apply starts_nth_inv in Hn. destruct Hn as [Hi Hti].
+        exists c', (i :: idx'). rewrite E, E', <- app_assoc. split; [reflexivity|].
+        split; [assumption|]. split; [assumption|]. split; [assumption|]. split; [assumption|]. split.
+        * intros k Hk. apply P'. intros t' Ht'. apply Hk. right. assumption.
+        * cbn [idx_rel]. split; [|split; [lia|assumption]].
+          rewrite P'; [auto|]. intros t' Ht'. specialize (Hs1 t' Ht'). lia.
+      + (* t is the end of the event: nothing recorded, later times are beyond *)
+        destruct (IH c idx Hg Hs2 Hnn' Hign') as (c' & idx' & E' & Hg' & A' & L' & M' & P' & R').
+        assert (idx' = []).
+        { destruct Hg' as (Hw' & _ & Hd'). apply (idx_rel_beyond c' durf idx' r Hw' Hd' R').
+          intros t' Ht'. specialize (Hs1 t' Ht'). lia. }
+        subst idx'. exists c', []. rewrite E, E'. split; [reflexivity|].
+        split; [assumption|]. split; [assumption|]. split; [assumption|]. split; [assumption|]. split.
+        * intros k Hk. apply P'. intros t' Ht'. apply Hk. right. assumption.
+        * cbn [idx_rel]. intros t' [<-|Ht']; [lia|]. specialize (Hs1 t' Ht'). lia.
+      + (* a child is split at t *)
+        destruct (IH c1 (idx ++ [i]) Hg1 Hs2 Hnn' Hign') as (c' & idx' & E' & Hg' & A' & L' & M' & P' & R').
+        destruct Hok as (K1 & K2 & K3 & K4 & K5 & K6 & K7 & K8 & K9 & K10 & K11).
+        exists c', (i :: idx'). rewrite E, E', <- app_assoc. split; [reflexivity|].
+        split; [assumption|]. split; [intros x; rewrite A'; apply K3|]. split; [lia|]. split; [lia|]. split.
+        * intros k Hk. assert (Hk0 : dsum (firstn k c) < t) by (apply Hk; left; reflexivity).
+          rewrite <- (K8 k Hk0). apply P'. intros t' Ht'. rewrite (K8 k Hk0). apply Hk. right. assumption.
+        * cbn [idx_rel]. split; [|split; [lia|assumption]].
+          rewrite P'; [assumption|]. intros t' Ht'. specialize (Hs1 t' Ht'). lia.
+      + (* t is beyond the end *)
+        assert (ign = true) as ->.
+        { destruct Hign as [->|H]; [reflexivity|]. specialize (H t (or_introl eq_refl)). lia. }
+        exists c, []. rewrite E, app_nil_r. split; [reflexivity|]. split; [assumption|].
+        split; [reflexivity|]. split; [lia|]. split; [lia|]. split; [reflexivity|].
+        cbn [idx_rel]. intros t' [<-|Ht']; [lia|]. specialize (Hs1 t' Ht'). lia.
+  Qed.
+End SeqMulti.
+
+Section SeqMulti2.
+  Variable rec : ev -> list Z -> bool -> res (list ev).
+  Variable n : nat.
+  Hypothesis Hrec : rec_ok n rec.
+
+  (* the loop over (0 ::) bs from the initial state *)
+  Lemma loop_times ign cs z bs : good n (dsum cs) cs -> pos_sorted bs ->
+    (ign = true \/ forall b, In b bs -> b <= dsum cs) ->
+    exists c' pre idx', seq_split_loop rec ign false (dsum cs) (times z bs) cs (starts cs) [] = Ok (c', pre ++ idx') /\
+       good n (dsum cs) c' /\ (forall x, at_seq c' x = at_seq cs x) /\ (hmax c' <= hmax cs)%nat /\
+       (pre = [] \/ (pre = [0%nat] /\ c' <> [])) /\ idx_rel c' (dsum cs) idx' bs.
+  Proof.
+    intros Hg [Hs Hp] Hign.
+    assert (Hnn : forall t, In t bs -> 0 <= t) by (intros t Ht; specialize (Hp t Ht); lia).
+    assert (Hz : forall idx, exists c' idx', seq_split_loop rec ign false (dsum cs) bs cs (starts cs) idx = Ok (c', idx ++ idx') /\
+       good n (dsum cs) c' /\ (forall x, at_seq c' x = at_seq cs x) /\ (hmax c' <= hmax cs)%nat /\
+       (length cs <= length c')%nat /\ idx_rel c' (dsum cs) idx' bs).
+    { intros idx. destruct (loop_sorted rec n Hrec ign (dsum cs) bs cs idx Hg Hs Hnn Hign)
+        as (c' & idx' & E & Hg' & A & L & M & _ & R). exists c', idx'. auto 10. }
+    destruct z; unfold times.
+    - rewrite seq_loop_cons. cbn [bind]. destruct cs as [|x cs'].
+      + change (starts []) with (@nil Z). cbn [index_of]. change (dsum []) with 0. change (0 =? 0) with true. cbv iota.
+        destruct (Hz []) as (c' & idx' & E & Hg' & A & M & L & R). change (dsum []) with 0 in E.
+        exists c', [], idx'. auto 10.
+      + unfold starts at 1. cbn [starts_from index_of]. change (0 =? 0) with true. cbv iota.
+        fold (starts (x :: cs')).
+        destruct (Hz ([] ++ [0%nat])) as (c' & idx' & E & Hg' & A & M & L & R).
+        exists c', [0%nat], idx'. split; [exact E|]. split; [assumption|]. split; [assumption|]. split; [assumption|].
+        split; [|assumption]. right. split; [reflexivity|]. intros ->. simpl in L. lia.
+    - destruct (Hz []) as (c' & idx' & E & Hg' & A & M & L & R). exists c', [], idx'. auto 10.
+  Qed.
+
+  Lemma seq_multi m cs z bs ign : (hmax cs <= n)%nat -> wfs cs -> pos_sorted bs -> times z bs <> [] ->
+    (ign = true \/ forall b, In b bs -> b <= dsum cs) ->
+    exists ps, seq_split rec m cs (times z bs) ign = Ok ps /\ aligned (Seq m cs) 0 bs ps.
+  Proof.
+    intros Hh Hwf Hp Hne Hign. rewrite seq_split_unfold by assumption. rewrite times_sort by assumption.
+    rewrite loop_first' by (intros t Ht; apply (times_nonneg z bs); assumption).
+    assert (Hg : good n (dsum cs) cs) by (repeat split; auto).
+    destruct (loop_times ign cs z bs Hg Hp Hign) as (c' & pre & idx' & E & Hg' & A & M & Hpre & R).
+    rewrite E. cbn [bind]. eexists; split; [reflexivity|].
+    destruct Hg' as (Hw' & Hh' & Hd').
+    apply (aligned_transfer (Seq m cs) (Seq m c')).
+    - destruct c' as [|x c''] eqn:Ec.
+      + assert (idx' = []) by (destruct idx' as [|i ?]; [reflexivity|]; destruct bs; cbn [idx_rel] in R; [destruct R|]; simpl in R; lia).
+        assert (pre = []) by (destruct Hpre as [->|[_ Hc]]; [reflexivity|congruence]). subst idx' pre.
+        cbn [app]. rewrite seq_finish_none. cbn [aligned]. rewrite dur_seq. simpl. lia.
+      + rewrite <- Ec in *. assert (Hne' : c' <> []) by (rewrite Ec; congruence).
+        rewrite seq_finish_shape.
+        * apply (slices_aligned m c' (dsum cs)); auto. apply pos_sorted_cons0. assumption.
+        * assumption.
+        * destruct Hpre as [->|[-> _]]; auto.
+        * apply (idx_rel_range c' (dsum cs) idx' bs R). apply Hp.
+    - intros x. rewrite !at_seq_eq. apply A.
+    - rewrite !dur_seq. assumption.
+    - rewrite !height_seq. lia.
+    - intros p H. exact H.
+  Qed.
+End SeqMulti2.
+
+(* ------------------------------------------------------------ the general theorem *)
+Theorem split_multi_gen : forall n, multi_ok n (split_at_f n).
+Proof.
+  induction n as [|n IH]; intros e z bs ign Hh Hw Hp Hne Hign.
+  - pose proof (height_pos e). lia.
+  - destruct e as [d l|m cs|m cs]; cbn [split_at_f].
+    + apply leaf_multi; auto.
+    + rewrite height_seq in Hh. apply (seq_multi _ n (split_single_gen n)); auto. lia.
+    + rewrite height_sim in Hh. apply (sim_multi _ n IH); auto. lia.
+Qed.
+
+(* ------------------------------------------------------------ reading the alignment *)
+(* part j is the window between the j-th and the (j+1)-th element of lo :: bs *)
+Lemma aligned_nth e : forall ps lo bs j p, aligned e lo bs ps -> nth_error ps j = Some p ->
+  is_win e (nth j (lo :: bs) 0) (nth_error bs j) p.
+Proof.
+  induction ps as [|q ps IH]; intros lo bs j p H Hn; [destruct j; discriminate|].
+  destruct j as [|j].
+  - simpl in Hn. inversion Hn; subst q. destruct bs as [|b bs]; cbn [aligned] in H; simpl; apply H.
+  - simpl in Hn. destruct bs as [|b bs]; cbn [aligned] in H.
+    + destruct H as [-> _]. destruct j; discriminate.
+    + destruct H as [_ H]. exact (IH b bs j p H Hn).
+Qed.
+
+(* C2: every cut strictly inside e is a boundary between parts *)
+Lemma aligned_boundaries e : wf e -> forall ps lo bs, ssorted (lo :: bs) -> aligned e lo bs ps ->
+  forall b, In b bs -> b < dur e -> In b (starts_from lo ps).
+Proof.
+  intros We. induction ps as [|p ps IH]; intros lo bs Hs H b Hb Hlt.
+  - simpl in H. destruct Hs as [Hs1 _]. specialize (Hs1 b Hb). lia.
+  - destruct bs as [|b0 bs]; [destruct Hb|]. cbn [aligned] in H. destruct H as [(_ & _ & _ & D & _) H].
+    destruct Hs as [Hs1 Hs2]. assert (lo < b0) by (apply Hs1; left; reflexivity).
+    assert (Hb0 : b0 <= b) by (destruct Hb as [<-|Hb]; [lia|]; destruct Hs2 as [Hs2 _]; specialize (Hs2 b Hb); lia).
+    unfold win_dur in D. cbn [starts_from]. right. replace (lo + dur p) with b0 by lia.
+    destruct Hb as [<-|Hb].
+    + destruct ps as [|q ps]; [simpl in H; lia|]. left. reflexivity.
+    + apply (IH b0 bs); auto.
+Qed.
+
+Definition gaps (l : list Z) : list Z := map (fun '(a, b) => b - a) (pairs l).
+Lemma gaps_cons2 a b r : gaps (a :: b :: r) = (b - a) :: gaps (b :: r).
+Proof. reflexivity. Qed.
+
+(* C2: the durations of the parts are the gaps between consecutive boundaries lo, b0, ..., bk, dur e;
+   only a final gap of length 0 may have no part *)
+Lemma aligned_gaps e : wf e -> forall ps lo bs, ssorted (lo :: bs) -> lo <= dur e -> (forall b, In b bs -> b <= dur e) ->
+  aligned e lo bs ps -> exists g, gaps (lo :: bs ++ [dur e]) = map dur ps ++ g /\ (g = [] \/ g = [0]).
+Proof.
+  intros We. induction ps as [|p ps IH]; intros lo bs Hs Hlo Hle H.
+  - simpl in H. destruct bs as [|b bs].
+    + exists [0]. split; [|right; reflexivity]. unfold gaps. simpl. f_equal. lia.
+    + destruct Hs as [Hs1 _]. specialize (Hs1 b (or_introl eq_refl)). specialize (Hle b (or_introl eq_refl)). lia.
+  - destruct bs as [|b bs]; cbn [aligned] in H.
+    + destruct H as [-> (_ & _ & _ & D & _)]. exists []. split; [|left; reflexivity].
+      unfold gaps, win_dur in *. simpl. f_equal. lia.
+    + destruct H as [(_ & _ & _ & D & _) H]. destruct Hs as [Hs1 Hs2].
+      assert (lo < b) by (apply Hs1; left; reflexivity). assert (b <= dur e) by (apply Hle; left; reflexivity).
+      destruct (IH b bs Hs2 ltac:(lia) (fun x Hx => Hle x (or_intror Hx)) H) as (g & Eg & Hg).
+      exists g. split; [|assumption]. cbn [app] in *. rewrite gaps_cons2, Eg. unfold win_dur in D.
+      cbn [map app]. f_equal. lia.
+Qed.
+
+(* ============================================================ Stage C: statements for the public function *)
+
+(* the master statement: with pairwise distinct, non-negative times (all inside e unless
+   ignore_invalid_split_point is set) split_at succeeds and part j is exactly the j-th window *)
+Theorem split_windows e ts ign : wf e -> ts <> [] -> NoDup ts -> (forall t, In t ts -> 0 <= t) ->
+  (ign = true \/ forall t, In t ts -> t <= dur e) ->
+  exists parts z bs, split_at e ts ign = Ok parts /\ sortZ ts = times z bs /\ pos_sorted bs /\
+    (forall t, In t ts -> 0 < t -> In t bs) /\ (forall t, In t bs -> In t ts) /\ aligned e 0 bs parts.
+Proof.
+  intros We Hne Hnd Hnn Hign.
+  destruct (times_decompose (sortZ ts)) as (z & bs & Esl & Hp & Hin1 & Hin2).
+  { apply sortZ_ssorted. assumption. }
+  { intros t Ht. apply Hnn, sortZ_In. assumption. }
+  assert (Hne' : times z bs <> []) by (rewrite <- Esl, sortZ_nil_iff; assumption).
+  destruct (split_multi_gen (height e) e z bs ign (le_n _) We Hp Hne') as (ps & E & Ha).
+  { destruct Hign as [->|H]; [left; reflexivity|right]. intros b Hb. apply H, sortZ_In, Hin2, Hb. }
+  exists ps, z, bs. split; [|split; [assumption|split; [assumption|split; [|split; [|assumption]]]]].
+  - rewrite (split_perm e ts (sortZ ts) ign (sortZ_permutation ts)), Esl. exact E.
+  - intros t Ht Hpos. apply Hin1; [apply sortZ_In|]; assumption.
+  - intros t Ht. apply sortZ_In, Hin2, Ht.
+Qed.
+
+Theorem split_total e ts : wf e -> ts <> [] -> NoDup ts -> (forall t, In t ts -> 0 <= t <= dur e) ->
+  exists parts, split_at e ts false = Ok parts.
+Proof.
+  intros We Hne Hnd Hr.
+  destruct (split_windows e ts false We Hne Hnd (fun t Ht => proj1 (Hr t Ht)) (or_intror (fun t Ht => proj2 (Hr t Ht))))
+    as (ps & _ & _ & E & _). eauto.
+Qed.
+
+(* C1 *)
+Theorem split_tiles e ts parts : wf e -> ts <> [] -> NoDup ts -> (forall t, In t ts -> 0 <= t <= dur e) ->
+  split_at e ts false = Ok parts ->
+  dsum parts = dur e /\ (forall x, at_seq parts x = at_ e x) /\ wfs parts /\ Forall (same_shape e) parts /\
+  (hmax parts <= height e)%nat.
+Proof.
+  intros We Hne Hnd Hr E.
+  destruct (split_windows e ts false We Hne Hnd (fun t Ht => proj1 (Hr t Ht)) (or_intror (fun t Ht => proj2 (Hr t Ht))))
+    as (ps & z & bs & E' & _ & Hp & _ & _ & Ha). rewrite E in E'. inversion E'; subst ps; clear E'.
+  destruct (aligned_tiles e We parts 0 bs ltac:(lia) (pos_sorted_cons0 bs Hp) Ha) as (T1 & T2 & T3 & T4 & T5).
+  pose proof (dur_nonneg e We). split; [lia|]. split; [|auto].
+  intros x. rewrite T2. destruct (0 <=? x) eqn:Ex; [f_equal; lia|]. symmetry. apply at_outside; [assumption|lia].
+Qed.
+
+(* the same with ignore_invalid_split_point=True: times beyond the end are harmless *)
+Theorem split_tiles_ignore e ts : wf e -> ts <> [] -> NoDup ts -> (forall t, In t ts -> 0 <= t) ->
+  exists parts, split_at e ts true = Ok parts /\
+  dsum parts = dur e /\ (forall x, at_seq parts x = at_ e x) /\ wfs parts /\ Forall (same_shape e) parts /\
+  (hmax parts <= height e)%nat.
+Proof.
+  intros We Hne Hnd Hnn.
+  destruct (split_windows e ts true We Hne Hnd Hnn (or_introl eq_refl)) as (ps & z & bs & E & _ & Hp & _ & _ & Ha).
+  exists ps. split; [exact E|].
+  destruct (aligned_tiles e We ps 0 bs ltac:(lia) (pos_sorted_cons0 bs Hp) Ha) as (T1 & T2 & T3 & T4 & T5).
+  pose proof (dur_nonneg e We). split; [lia|]. split; [|auto].
+  intros x. rewrite T2. destruct (0 <=? x) eqn:Ex; [f_equal; lia|]. symmetry. apply at_outside; [assumption|lia].
+Qed.
+
+(* C2 *)
+Theorem split_boundaries e ts parts : wf e -> ts <> [] -> NoDup ts -> (forall t, In t ts -> 0 <= t <= dur e) ->
+  split_at e ts false = Ok parts -> forall t, In t ts -> 0 < t < dur e -> In t (starts parts).
+Proof.
+  intros We Hne Hnd Hr E t Ht Hin.
+  destruct (split_windows e ts false We Hne Hnd (fun t Ht => proj1 (Hr t Ht)) (or_intror (fun t Ht => proj2 (Hr t Ht))))
+    as (ps & z & bs & E' & _ & Hp & Hin1 & _ & Ha). rewrite E in E'. inversion E'; subst ps; clear E'.
+  apply (aligned_boundaries e We parts 0 bs (pos_sorted_cons0 bs Hp) Ha); [apply Hin1; [assumption|lia]|lia].
+Qed.
+
+Theorem split_durations e ts parts : wf e -> ts <> [] -> NoDup ts -> (forall t, In t ts -> 0 <= t <= dur e) ->
+  split_at e ts false = Ok parts ->
+  exists z bs g, sortZ ts = times z bs /\ pos_sorted bs /\
+    gaps (0 :: bs ++ [dur e]) = map dur parts ++ g /\ (g = [] \/ g = [0]).
+Proof.
+  intros We Hne Hnd Hr E.
+  destruct (split_windows e ts false We Hne Hnd (fun t Ht => proj1 (Hr t Ht)) (or_intror (fun t Ht => proj2 (Hr t Ht))))
+    as (ps & z & bs & E' & Es & Hp & _ & Hin2 & Ha). rewrite E in E'. inversion E'; subst ps; clear E'.
+  destruct (aligned_gaps e We parts 0 bs (pos_sorted_cons0 bs Hp) (dur_nonneg e We)) as (g & Eg & Hg); auto.
+  - intros b Hb. apply Hr, Hin2, Hb.
+  - exists z, bs, g. auto.
+Qed.
+
+(* A2, the case t = 0: nothing is cut; the event comes back as (at most) one part *)
+Theorem split_single_zero n e ign : (height e <= n)%nat -> wf e ->
+  exists ps, split_at_f n e [0] ign = Ok ps /\ (length ps <= 1)%nat /\ dsum ps = dur e /\
+    (forall x, at_seq ps x = at_ e x) /\ wfs ps /\ Forall (same_shape e) ps /\ (hmax ps <= height e)%nat.
+Proof.
+  intros Hh We.
+  assert (Hp : pos_sorted []) by (split; [exact I|intros ? []]).
+  destruct (split_multi_gen n e true [] ign Hh We Hp ltac:(discriminate) ltac:(right; intros ? [])) as (ps & E & Ha).
+  exists ps. split; [exact E|]. split; [exact (aligned_length e 0 [] ps Ha)|].
+  destruct (aligned_tiles e We ps 0 [] ltac:(lia) (pos_sorted_cons0 [] Hp) Ha) as (T1 & T2 & T3 & T4 & T5).
+  pose proof (dur_nonneg e We). split; [lia|]. split; [|auto].
+  intros x. rewrite T2. destruct (0 <=? x) eqn:Ex; [f_equal; lia|]. symmetry. apply at_outside; [assumption|lia].
+Qed.
+
+(* ------------------------------------------------------------ fuel independence (A3, for arbitrary times) *)
+Lemma rec_ok_mono n n' rec : rec_ok n rec -> (n' <= n)%nat -> rec_ok n' rec.
+Proof. intros H Hle e t ign Hh. apply H. lia. Qed.
+
+Lemma loop_ext rec1 rec2 n : rec_ok n rec1 ->
+  (forall ch t', (height ch <= n)%nat -> rec1 ch [t'] false = rec2 ch [t'] false) ->
+  forall ign durf sl first c idx, good n durf c ->
+   seq_split_loop rec1 ign first durf sl c (starts c) idx = seq_split_loop rec2 ign first durf sl c (starts c) idx.
+Proof.
+  intros Hrec Hag ign durf. induction sl as [|t r IH]; intros first c idx Hg; [reflexivity|].
+  rewrite !seq_loop_cons. destruct (if first then check_time t else Ok tt); [|reflexivity]. cbn [bind].
+  destruct (index_of t (starts c)) as [i|] eqn:Eidx; [apply IH; assumption|].
+  destruct (t =? durf) eqn:Etd; [apply IH; assumption|].
+  assert (Hext : split_child_core rec1 c t (starts c) durf = split_child_core rec2 c t (starts c) durf).
+  { apply split_child_core_ext. intros ch t' Hin. apply Hag. destruct Hg as (_ & Hh & _).
+    pose proof (hmax_In c ch Hin). lia. }
+  rewrite <- Hext. destruct (split_child_core rec1 c t (starts c) durf) as [[c' i]|k] eqn:E; [|reflexivity].
+  destruct (Z_lt_le_dec t 0) as [Hneg|Hnn].
+  { unfold split_child_core in E. rewrite check_time_err in E by assumption. discriminate. }
+  destruct (Z_lt_le_dec t durf) as [Hlt|Hge].
+  - destruct (core_step rec1 n Hrec durf c t Hg Hnn Hlt (index_of_none _ _ Eidx)) as (c'' & i'' & E' & _ & Hg' & Hst).
+    rewrite E in E'. inversion E'; subst c'' i''. rewrite <- Hst. apply IH. assumption.
+  - destruct Hg as (Hw & Hh & Hd). subst durf.
+    destruct (split_child_core_spec rec1 n Hrec c t Hh Hw Hnn) as [H1 _]. rewrite (H1 Hge) in E. discriminate.
+Qed.
+
+Theorem split_fuel : forall n1 n2 e ts ign, (height e <= n1)%nat -> (height e <= n2)%nat -> wf e ->
+  split_at_f n1 e ts ign = split_at_f n2 e ts ign.
+Proof.
+  induction n1 as [|n1 IH]; intros n2 e ts ign H1 H2 We; [pose proof (height_pos e); lia|].
+  destruct n2 as [|n2]; [pose proof (height_pos e); lia|].
+  destruct e as [d l|m cs|m cs]; cbn [split_at_f]; [reflexivity| |].
+  - rewrite height_seq in *. rewrite wf_seq in We. destruct ts as [|t0 ts0]; [reflexivity|].
+    rewrite !seq_split_unfold by congruence.
+    rewrite (loop_ext (split_at_f n1) (split_at_f n2) (hmax cs)); [reflexivity| | |repeat split; auto].
+    + apply (rec_ok_mono n1); [apply split_single_gen|lia].
+    + intros ch t' Hh. apply split_single_fuel; lia.
+  - rewrite height_sim in *. rewrite wf_sim in We. destruct ts as [|t0 ts0]; [reflexivity|].
+    rewrite !sim_split_unfold by congruence. cbv zeta.
+    destruct (check_time (hd 0 (sortZ (t0 :: ts0)))); [|reflexivity]. cbn [bind].
+    destruct ((dmax cs <? lastZ (sortZ (t0 :: ts0))) && negb ign); [reflexivity|].
+    unfold slices_of. rewrite (mapM_ext _ (fun c => match sortZ (t0 :: ts0) with [] => Ok [c] | _ :: _ => split_at_f n2 c (sortZ (t0 :: ts0)) true end)); [reflexivity|].
+    intros c Hin. destruct (sortZ (t0 :: ts0)); [reflexivity|]. pose proof (hmax_In cs c Hin).
+    apply IH; try lia. eapply wfs_In; eauto.
+Qed.
+
+Theorem split_at_f_fuel n e ts ign : (height e <= n)%nat -> wf e -> split_at_f n e ts ign = split_at e ts ign.
+Proof. intros. unfold split_at. apply split_fuel; auto. Qed.
+
+(* ------------------------------------------------------------ examples *)
+Example ex_split_multi : split_at ex_tree [5; 35; 50] false =
+  Ok [Seq meta0 [Seq meta0 [Leaf 5 1]];
+      Seq meta0 [Seq meta0 [Leaf 5 1; Leaf 20 2]; Sim meta0 [Leaf 5 3; Seq meta0 [Leaf 5 4]]];
+      Seq meta0 [Sim meta0 [Leaf 10 3; Seq meta0 [Leaf 10 5]]; Leaf 5 6];
+      Seq meta0 [Leaf 5 6]].
+Proof. vm_compute. reflexivity. Qed.
+
+(* the hypotheses of split_tiles / split_boundaries / split_durations hold for this call *)
+Example ex_multi_hyps : wfb ex_tree = true /\ NoDup [5; 35; 50] /\ (forall t, In t [5; 35; 50] -> 0 <= t <= dur ex_tree).
+Proof.
+  split; [vm_compute; reflexivity|]. split.
+  - repeat constructor; simpl; intuition lia.
+  - change (dur ex_tree) with 55. simpl. intuition lia.
+Qed.
+Example ex_multi_starts : forall parts, split_at ex_tree [5; 35; 50] false = Ok parts ->
+  starts parts = [0; 5; 35; 50] /\ map dur parts = [5; 30; 15; 5] /\ dsum parts = dur ex_tree.
+Proof. intros parts. rewrite ex_split_multi. intros H. inversion H; subst. vm_compute. auto. Qed.
+(* cuts at the ends, and a cut exactly at the end of a voice with a trailing zero-length child *)
+Example ex_split_ends : split_at ex_tree [0; 55] false = Ok [ex_tree].
+Proof. vm_compute. reflexivity. Qed.
+Example ex_split_sim_rows : split_at (Sim meta0 [Seq meta0 [Leaf 10 1; Leaf 0 2]; Leaf 25 3; Leaf 0 9]) [10; 20] false =
+  Ok [Sim meta0 [Seq meta0 [Leaf 10 1]; Leaf 10 3];
+      Sim meta0 [Seq meta0 [Leaf 0 2]; Leaf 10 3];
+      Sim meta0 [Leaf 5 3]].
+Proof. vm_compute. reflexivity. Qed.
+
+Print Assumptions split_multi_gen.
+Print Assumptions split_windows.
+Print Assumptions split_total.
+Print Assumptions split_tiles.
+Print Assumptions split_tiles_ignore.
+Print Assumptions split_boundaries.
+Print Assumptions split_durations.
+Print Assumptions split_fuel.
+Print Assumptions split_single_zero.
